@@ -33,6 +33,8 @@ const ENC = {
   exportedAlias: (ns, c) => { const n = c.fresh('X'); return { type: n, decls: [`export type ${n} = (e: ${ns.map(q).join(' | ')}) => void;`] }; },
 };
 const ENC_KEYS = Object.keys(ENC);
+// the encodings that can spell a type declaring no event
+const EMPTY_ENC = ['callSigLit', 'iface', 'ifaceExt', 'ifaceExt2', 'ifaceMerge', 'propSyntax', 'propIface', 'methodSyntax', 'aliasOf', 'inter', 'exported'];
 // how the setup function and its second parameter are written
 const SETUPS = {
   arrow: (T) => `(props: {}, ctx: SetupContext<${T}>) => () => null`,
@@ -163,6 +165,14 @@ function spaces(tier) {
         }
       },
     },
+    {
+      // E declares no event at all: the call still receives an emits option, and it lists nothing
+      name: 'Z:empty-event-set',
+      bounds: { names: [], encodings: EMPTY_ENC, setup_forms: Object.keys(SETUPS), scopes: ['module', 'local', 'localArrow', 'mixed', 'twice', 'laterVueImport'], positions: ['before', 'after'] },
+      *gen() {
+        for (const enc of EMPTY_ENC) for (const setup of Object.keys(SETUPS)) for (const scope of ['module', 'local', 'localArrow', 'mixed', 'twice', 'laterVueImport']) for (const pos of (['mixed', 'twice', 'laterVueImport'].includes(scope) ? ['before'] : ['before', 'after'])) yield { sp: 'E', names: [], enc, setup, scope, pos };
+      },
+    },
     { name: 'N:no-SetupContext-annotation', bounds: { forms: Object.keys(NO_EMITS) }, *gen() { for (const form of Object.keys(NO_EMITS)) yield { sp: 'N', form }; } },
   ];
 }
@@ -180,7 +190,7 @@ function* shrink(c) {
 module.exports = {
   id: 'C19',
   level: 'model_checking',
-  rule: 'complete product event-name set (≤3 of {a, b, update:x, c-d}, ordered) × encoding (function type, union of function types, call-signature literal incl. duplicate names, interface, extends chains, merged interface, property and method syntax, literal-union aliases of 1-2 hops also inside an interface, aliases, intersection, parentheses, exported) × setup form (arrow, destructured context, function expression, typed props) × scope (module, function-local, parents at module level) × declaration before/after the call, plus the forms without a SetupContext<E> annotation; each state is transformed by the real visitor with resolveType on and executed; the emits option received by the mock defineComponent must equal the declared set (no emits key without the annotation), with no error diagnostic. Distinct = distinct (emits, diagnostics).',
+  rule: 'complete product event-name set (≤3 of {a, b, update:x, c-d, constructor}, ordered; and the empty set in every encoding that can spell it) × encoding (function type, union of function types, call-signature literal incl. duplicate names, interface, extends chains, merged interface, property and method syntax, literal-union aliases of 1-2 hops also inside an interface, aliases, intersection, parentheses, exported) × setup form (arrow, destructured context, function expression, typed props) × scope (module, function-local, parents at module level) × declaration before/after the call, plus the forms without a SetupContext<E> annotation; each state is transformed by the real visitor with resolveType on and executed; the emits option received by the mock defineComponent must equal the declared set (no emits key without the annotation), with no error diagnostic. Distinct = distinct (emits, diagnostics).',
   assumptions: ['mock defineComponent records its arguments', 'SWC TypeScript parser; TS eraser of the driver'],
   spaces, requests, judge, shrink,
   caseKey: (c) => (c.sp === 'N' ? 'N:' + c.form : `E:{${c.names.map((i) => NAMES[i]).join(',')}} as ${c.enc} / ${c.setup} @${c.scope}:${c.pos}`),
